@@ -28,5 +28,6 @@ for id in "$@"; do
   v="$(echo "$out" | grep -c '^VIOLATION')"
   first="$(echo "$out" | grep -m1 '^violation:' | cut -c1-150)"
   echo "  check $id $tier: exit=$rc violations=$v $first"
+  if [ $rc -eq 2 ]; then echo "$out" | tail -25 > "/tmp/mut/exit2-$(basename $(dirname $d))-$(basename $d)-$id.log"; fi
   if [ "${SHOW:-0}" = 1 ]; then echo "$out" | grep -A2 '^violation:' | head -20; fi
 done
